@@ -19,12 +19,14 @@ func init() {
 			"14 payloader configurations: G711, G722, Opus, H264 +/-DisableStapA, H265 x AddDONL x SkipAggregation, VP8 without / with picture ids (fresh, and driven to the 15-bit id form), VP9 flexible / non-flexible (fixed InitialPictureIDFn), AV1",
 			"alphabet strings: every string up to 5 (quick) / 6 (thorough) bytes over an 8-symbol alphabet per codec (start-code bytes, NAL / OBU / VP9 frame header octets) for every MTU 0..12; structured corpus per codec (30-60 inputs from the reference writers: NAL sequences with 3/4-byte start codes, leading garbage, no start code, OBU streams with forbidden bit / truncated LEB128 / oversize field, valid, truncated and invalid VP9 headers, lengths around the MTU) for EVERY MTU 0..40 and {63,64,65,127,128,129,255,256,1200,65535}",
 			"histories: all sequences of up to 3 inputs from a 14-20 input sub-corpus per codec over 12 MTUs; pairs over the full corpus",
+			"long histories: all sequences of 6 calls over 4 inputs per codec; large inputs (5000, 66000 and 140000 bytes, i.e. beyond 16-bit lengths and more than 256 / 65536 fragments) for MTU {2,3,5,12,100,1200,65535}",
 			"returning no fragment (MTU too small, unparsable input) is allowed; Opus ignores the MTU by design",
 		},
 		Scenarios: []mc.Scenario{
 			{Name: "alphabet-strings-mtu-0..12", Tiers: "qt", ShardDepth: 3, Run: c08Strings},
 			{Name: "structured-inputs-every-mtu", Tiers: "qt", ShardDepth: 2, Run: c08MTUSweep},
 			{Name: "call-histories", Tiers: "qt", ShardDepth: 3, Run: c08Histories},
+			{Name: "long-histories-and-large-inputs", Tiers: "qt", ShardDepth: 3, Run: c08Long},
 		},
 	})
 }
@@ -312,6 +314,59 @@ func c08Histories(c *mc.Ctx) {
 	}
 	var inputs [][]byte
 	for i := 0; i < depth; i++ {
+		inputs = append(inputs, mc.From(c, corpus))
+	}
+	if c.Verbose() {
+		c.Notef("%s mtu=%d history %s", cfg.name, mtu, hxs(inputs))
+	}
+	c08Run(c, cfg, mtu, inputs)
+}
+
+var c08LargeCache = map[string][][]byte{}
+
+func c08Large(family string) [][]byte {
+	if v, ok := c08LargeCache[family]; ok {
+		return v
+	}
+	var out [][]byte
+	for _, n := range []int{5000, 66000, 140000} {
+		var b []byte
+		switch family {
+		case "h264":
+			b = ref.AnnexB([][]byte{ref.H264Unit(5, 3, n, 1)}, []int{4})
+		case "h265":
+			b = ref.AnnexB([][]byte{ref.H265Unit(19, 0, 1, n, 1)}, []int{3})
+		case "vp9":
+			b = (&ref.VP9FrameHeader{ShowFrame: true, ColorSpace: 2, Width: 1920, Height: 1080}).Encode(n, 1)
+		case "av1":
+			b = ref.AV1Stream([]ref.OBU{{Type: 1, Payload: fill(5, 1)}, {Type: 6, Payload: fill(n, 2)}}, n == 66000)
+		default:
+			b = fill(n, 7)
+		}
+		out = append(out, b)
+	}
+	c08LargeCache[family] = out
+	return out
+}
+
+func c08Long(c *mc.Ctx) {
+	cfg := mc.From(c, c08Configs)
+	if c.Bool() {
+		mtu := mc.From(c, []int{2, 3, 5, 12, 100, 1200, 65535})
+		in := mc.From(c, c08Large(cfg.family))
+		if mtu < 12 && len(in) > 70000 {
+			return
+		}
+		if c.Verbose() {
+			c.Notef("%s mtu=%d large input of %d bytes", cfg.name, mtu, len(in))
+		}
+		c08Run(c, cfg, mtu, [][]byte{in})
+		return
+	}
+	mtu := mc.From(c, []int{3, 8, 40})
+	corpus := c08SubCorpus(cfg.family, 4)
+	var inputs [][]byte
+	for i := 0; i < 6; i++ {
 		inputs = append(inputs, mc.From(c, corpus))
 	}
 	if c.Verbose() {
